@@ -51,6 +51,8 @@ func init() {
 			{Name: "CACHE-PUT-REFUSE", What: "with the table full, an unused block is handed back as (b,false) without eviction or insertion", Floor: 3,
 				Run: func(c *Ctx, r *Rep, tier string) {}},
 			{Name: "EVICT-MATCH", What: "the block Put reports as evicted is the block whose entry it removed (shared with C14)", Floor: 4, Run: ruleEvictMatch},
+			{Name: "SEEK-REDIRECT", What: "a Seek served from the cache redirects the read-ahead worker (or is limited to the synchronous mode)", Floor: 1, Run: ruleSeekRedirect},
+			{Name: "BASE-DROPS-DATA", What: "a block given a new base has no data (and cannot be cached) until a read into it succeeded", Floor: 2, Run: ruleBaseDropsData},
 			{Name: "OWNER-ON-SUCCESS", What: "block.readFrom detaches the block before decoding into it and re-attaches it only when the decode succeeded (added after a blind second seed round)", Floor: 1, Run: ruleOwnerOnSuccess},
 		},
 		Explanation: "A block that is at the same time in a cache's table and in the reader's hands is recycled as the next decompression target while the table still maps its old base – exactly the wrong-data outcome the property forbids. OWN-1 (reader side, all hand-over sites, Reader.current tracked as one location, checked as an inductive invariant per function) and OWN-2 (cache side, all implementations) are the structural statement of \"never aliased\"; OWN-3 the cross-reader contamination test; LOCK-2 that the cache field is never read while SetCache writes it (including from the read-ahead goroutine); LOCK-1/3/4 that attaching a cache cannot make a call block for ever through lock misuse.",
